@@ -25,6 +25,9 @@ func init() {
 		"go.bigint":     goBigInt,
 		"go.magictrunc": goMagicTrunc,
 		"go.tight":      goTight,
+		"abi.dec":       exAbiDec,
+		"abi.enc":       exAbiEnc,
+		"go.abi.rt":     goAbiRT,
 	})})
 }
 
@@ -172,6 +175,7 @@ func genC03(g *h.G) {
 			g.Emit("go.tight", n, tlbx.Print(v))
 		}
 	}
+	genAbiBodies(g)
 	genTags(g)
 	genReal(g)
 }
